@@ -168,17 +168,16 @@ impl<T> DataReaderEntity<T> {
             }
         };
 
-        let mut samples = Vec::new();
-
-        let mut instances_in_collection = Vec::<InstanceState>::new();
-        self.sample_list.retain_mut(|cache_change| {
-            if samples.len() as i32 == max_samples {
-                return true;
+        // Select, in storage order, the samples that match the requested states
+        let mut indexes_in_collection = Vec::new();
+        for (index, cache_change) in self.sample_list.iter().enumerate() {
+            if indexes_in_collection.len() as i32 == max_samples {
+                break;
             }
 
             if let Some(h) = specific_instance_handle {
                 if &cache_change.instance_handle != h {
-                    return true;
+                    continue;
                 }
             };
 
@@ -187,103 +186,92 @@ impl<T> DataReaderEntity<T> {
                 .iter()
                 .find(|x| x.handle == cache_change.instance_handle)
             else {
-                return true;
+                continue;
             };
 
-            if !(sample_states.contains(&cache_change.sample_state)
+            if sample_states.contains(&cache_change.sample_state)
                 && view_states.contains(&instance.view_state)
-                && instance_states.contains(&instance.instance_state))
+                && instance_states.contains(&instance.instance_state)
             {
-                return true;
+                indexes_in_collection.push(index);
             }
+        }
 
-            if !instances_in_collection
+        let mut instances_in_collection = Vec::<InstanceHandle>::new();
+        for &index in &indexes_in_collection {
+            let handle = self.sample_list[index].instance_handle;
+            if !instances_in_collection.contains(&handle) {
+                instances_in_collection.push(handle);
+            }
+        }
+
+        // The samples of one instance are returned consecutively, keeping their storage order.
+        // The ranks relate each sample to the following ones of the same instance in the collection
+        // and to the most recent generation of the instance
+        let mut samples = Vec::new();
+        for handle in &instances_in_collection {
+            let instance_sample_indexes: Vec<usize> = indexes_in_collection
                 .iter()
-                .any(|x| x.handle() == &cache_change.instance_handle)
-            {
-                instances_in_collection.push(InstanceState::new(cache_change.instance_handle));
-            }
+                .copied()
+                .filter(|&index| &self.sample_list[index].instance_handle == handle)
+                .collect();
+            let most_recent_sample_generation = instance_sample_indexes
+                .last()
+                .map(|&index| {
+                    self.sample_list[index].disposed_generation_count
+                        + self.sample_list[index].no_writers_generation_count
+                })
+                .expect("Instance must have samples in collection");
+            let total_instance_samples_in_collection = instance_sample_indexes.len();
 
-            let instance_from_collection = instances_in_collection
-                .iter_mut()
-                .find(|x| x.handle() == &cache_change.instance_handle)
-                .expect("Instance must exist");
-            instance_from_collection.update_state(cache_change.kind, None);
-            let sample_state = cache_change.sample_state;
-            let view_state = instance.view_state;
-            let instance_state = instance.instance_state;
-
-            let absolute_generation_rank = (instance.most_recent_disposed_generation_count
-                + instance.most_recent_no_writers_generation_count)
-                - (instance_from_collection.most_recent_disposed_generation_count
-                    + instance_from_collection.most_recent_no_writers_generation_count);
-
-            let (data, valid_data) = match cache_change.kind {
-                ChangeKind::Alive | ChangeKind::AliveFiltered => {
-                    (cache_change.data_value.clone(), true)
-                }
-                ChangeKind::NotAliveDisposed
-                | ChangeKind::NotAliveUnregistered
-                | ChangeKind::NotAliveDisposedUnregistered => {
-                    (cache_change.data_value.clone(), false)
-                }
-            };
-
-            let sample_info = SampleInfo {
-                sample_state,
-                view_state,
-                instance_state,
-                disposed_generation_count: cache_change.disposed_generation_count,
-                no_writers_generation_count: cache_change.no_writers_generation_count,
-                sample_rank: 0,     // To be filled up after collection is created
-                generation_rank: 0, // To be filled up after collection is created
-                absolute_generation_rank,
-                source_timestamp: cache_change.source_timestamp,
-                instance_handle: cache_change.instance_handle,
-                publication_handle: InstanceHandle::new(cache_change.writer_guid),
-                valid_data,
-            };
-
-            samples.push((data, sample_info));
-
-            if take {
-                false
-            } else {
-                cache_change.sample_state = SampleStateKind::Read;
-                true
-            }
-        });
-
-        // After the collection is created, update the relative generation rank values and mark the read instances as viewed
-        for handle in instances_in_collection.iter().map(|x| x.handle()) {
-            let most_recent_sample_absolute_generation_rank = samples
-                .iter()
-                .filter(|(_, sample_info)| &sample_info.instance_handle == handle)
-                .map(|(_, sample_info)| sample_info.absolute_generation_rank)
-                .next_back()
-                .expect("Instance handle must exist on collection");
-
-            let mut total_instance_samples_in_collection = samples
-                .iter()
-                .filter(|(_, sample_info)| &sample_info.instance_handle == handle)
-                .count();
-
-            for (_, sample_info) in samples
-                .iter_mut()
-                .filter(|(_, sample_info)| &sample_info.instance_handle == handle)
-            {
-                sample_info.generation_rank = sample_info.absolute_generation_rank
-                    - most_recent_sample_absolute_generation_rank;
-
-                total_instance_samples_in_collection -= 1;
-                sample_info.sample_rank = total_instance_samples_in_collection as i32;
-            }
-
-            self.instances
+            let instance = self
+                .instances
                 .iter_mut()
                 .find(|x| x.handle() == handle)
-                .expect("Sample must exist")
-                .mark_viewed()
+                .expect("Instance must exist");
+            let instance_generation = instance.most_recent_disposed_generation_count
+                + instance.most_recent_no_writers_generation_count;
+
+            for (position, index) in instance_sample_indexes.into_iter().enumerate() {
+                let cache_change = &mut self.sample_list[index];
+                let sample_generation = cache_change.disposed_generation_count
+                    + cache_change.no_writers_generation_count;
+                let valid_data = match cache_change.kind {
+                    ChangeKind::Alive | ChangeKind::AliveFiltered => true,
+                    ChangeKind::NotAliveDisposed
+                    | ChangeKind::NotAliveUnregistered
+                    | ChangeKind::NotAliveDisposedUnregistered => false,
+                };
+
+                let sample_info = SampleInfo {
+                    sample_state: cache_change.sample_state,
+                    view_state: instance.view_state,
+                    instance_state: instance.instance_state,
+                    disposed_generation_count: cache_change.disposed_generation_count,
+                    no_writers_generation_count: cache_change.no_writers_generation_count,
+                    sample_rank: (total_instance_samples_in_collection - position - 1) as i32,
+                    generation_rank: most_recent_sample_generation - sample_generation,
+                    absolute_generation_rank: instance_generation - sample_generation,
+                    source_timestamp: cache_change.source_timestamp,
+                    instance_handle: cache_change.instance_handle,
+                    publication_handle: InstanceHandle::new(cache_change.writer_guid),
+                    valid_data,
+                };
+
+                samples.push((cache_change.data_value.clone(), sample_info));
+                cache_change.sample_state = SampleStateKind::Read;
+            }
+
+            instance.mark_viewed();
+        }
+
+        if take {
+            let mut index = 0;
+            self.sample_list.retain(|_| {
+                let is_in_collection = indexes_in_collection.binary_search(&index).is_ok();
+                index += 1;
+                !is_in_collection
+            });
         }
 
         if samples.is_empty() {
